@@ -138,8 +138,13 @@ where
                         req_res = request_rx.recv() => {
                             match req_res {
                                 Ok(Some(RFnRequest {argument, result_tx})) => {
-                                    let result = fun(argument).await;
-                                    let _ = result_tx.send(result);
+                                    tokio::select! {
+                                        biased;
+                                        () = result_tx.closed() => (),
+                                        result = fun(argument) => {
+                                            let _ = result_tx.send(result);
+                                        }
+                                    }
                                 }
                                 Ok(None) => break,
                                 Err(err) if err.is_final() => break,
